@@ -33,10 +33,10 @@ namespace {
     // docs/web/tensors.md "Special values of the t2tot2 class"
     f4::cmp(c, C4::Id(), I4, N, NS, NS, 0, "C02.t2tot2.Id", "Id");
     f4::cmp(c, C4::IxI(), II, N, NS, NS, 0, "C02.t2tot2.IxI", "IxI");
-    f4::cmp(c, C4::K(), K, N, NS, NS, 2 * u, "C02.t2tot2.K", "K");
+    f4::cmp(c, C4::K(), K, N, NS, NS, 32 * u, "C02.t2tot2.K", "K");
     f4::cmp(c, C4::transpose_derivative(), ref::Tr4(), N, NS, NS, 0,
             "C02.t2tot2.transpose_derivative", "transpose_derivative");
-    const R tol = 32 * u * nA + tiny;
+    const R tol = 512 * u * nA + tiny;
     cmpT(c, TT(C4::Id() * a), A, tol, "C02.t2tot2.Id", "Id:a = a");
     cmpT(c, TT(C4::IxI() * a), ref::trace(A) * M3::Id(), tol, "C02.t2tot2.IxI",
          "IxI:a = tr(a) I");
@@ -61,27 +61,27 @@ namespace {
     const R nC = ref::norm(Cr), nD = ref::norm(Dr), nA = ref::norm(A), nB = ref::norm(B);
     c.nontrivial(N >= 2 && nC > 0 && (nonsym(A, N) || nD > 0));
     // (C:a)_ij = C_ijkl a_kl
-    cmpT(c, TT(C * a), ref::ddot(Cr, A), 64 * u * nC * nA + tiny, "C02.t2tot2.apply", "C*a");
+    cmpT(c, TT(C * a), ref::ddot(Cr, A), 256 * u * nC * nA + tiny, "C02.t2tot2.apply", "C*a");
     // (a:C)_kl = a_ij C_ijkl
-    cmpT(c, TT(a * C), ref::ddot(A, Cr), 64 * u * nC * nA + tiny, "C02.t2tot2.apply_left",
+    cmpT(c, TT(a * C), ref::ddot(A, Cr), 256 * u * nC * nA + tiny, "C02.t2tot2.apply_left",
          "a*C");
-    cmpT(c, TT(a | C), ref::ddot(A, Cr), 64 * u * nC * nA + tiny, "C02.t2tot2.apply_left",
+    cmpT(c, TT(a | C), ref::ddot(A, Cr), 256 * u * nC * nA + tiny, "C02.t2tot2.apply_left",
          "a|C");
     // (C:D)_ijkl = C_ijmn D_mnkl
-    f4::cmp(c, C4(C * D), ref::ddot(Cr, Dr), N, NS, NS, 64 * u * nC * nD + tiny,
+    f4::cmp(c, C4(C * D), ref::ddot(Cr, Dr), N, NS, NS, 256 * u * nC * nD + tiny,
             "C02.t2tot2.product", "C*D");
     // dyadic product (a^b)_ijkl = a_ij b_kl
-    f4::cmp(c, C4(a ^ b), ref::otimes(A, B), N, NS, NS, 8 * u * nA * nB + tiny,
+    f4::cmp(c, C4(a ^ b), ref::otimes(A, B), N, NS, NS, 128 * u * nA * nB + tiny,
             "C02.t2tot2.dyadic", "a^b");
     // linear combinations
-    f4::cmp(c, C4(C + D), Cr + Dr, N, NS, NS, 8 * u * (nC + nD) + tiny, "C02.t2tot2.lincomb",
+    f4::cmp(c, C4(C + D), Cr + Dr, N, NS, NS, 128 * u * (nC + nD) + tiny, "C02.t2tot2.lincomb",
             "C+D");
-    f4::cmp(c, C4(2 * C - D), R(2) * Cr - Dr, N, NS, NS, 8 * u * (2 * nC + nD) + tiny,
+    f4::cmp(c, C4(2 * C - D), R(2) * Cr - Dr, N, NS, NS, 128 * u * (2 * nC + nD) + tiny,
             "C02.t2tot2.lincomb", "2C-D");
     f4::cmp(c, C4(-C), R(-1) * Cr, N, NS, NS, 0, "C02.t2tot2.lincomb", "-C");
     // transposition operator composed: (T:C:T) a = (C a^T)^T
     const C4 Tt = C4::transpose_derivative();
-    f4::cmp(c, C4(Tt * C), ref::ddot(ref::Tr4(), Cr), N, NS, NS, 8 * u * nC + tiny,
+    f4::cmp(c, C4(Tt * C), ref::ddot(ref::Tr4(), Cr), N, NS, NS, 128 * u * nC + tiny,
             "C02.t2tot2.transpose_derivative", "transpose_derivative*C");
   }
 
@@ -105,12 +105,12 @@ namespace {
     // on a tensor than applying a given rotation", i.e. change_basis(a,r))
     T4 Rot;
     REF_FOR4 Rot(i, j, k, l) = Rm(k, i) * Rm(l, j);
-    f4::cmp(c, C4(C4::fromRotationMatrix(r)), Rot, N, NS, NS, 16 * u,
+    f4::cmp(c, C4(C4::fromRotationMatrix(r)), Rot, N, NS, NS, 256 * u,
             "C02.t2tot2.fromRotationMatrix", "fromRotationMatrix(r)");
     const TT a = gen::toTensor<TT>(gen::dense(c, N, 1.));
     const M3 A = gen::tensorToM3(a);
     cmpT(c, TT(C4::fromRotationMatrix(r) * a), ref::transpose(Rm) * A * Rm,
-         128 * u * ref::norm(A) + tiny, "C02.t2tot2.fromRotationMatrix",
+         512 * u * ref::norm(A) + tiny, "C02.t2tot2.fromRotationMatrix",
          "fromRotationMatrix(r)*a = r^T a r");
     cmpT(c, TT(C4::fromRotationMatrix(r) * a), gen::tensorToM3(TT(change_basis(a, r))),
          256 * u * ref::norm(A) + tiny, "C02.t2tot2.fromRotationMatrix",
